@@ -308,15 +308,11 @@ def ob_cert_wiring(run, oid):
         for c, key in K.ordinal_keys(sites, lambda c: "%s|%s" % (fshort(c.body.defpath), fshort(c.name))):
             o.check(K.root_fn(c.body.defpath) == PI + "::add_valid_cert", key + "|caller", "%s is called from add_valid_cert" % fshort(fn), c.span)
             atoms = G.guard_atoms(c.body, c.bb, prog)
-            vs = [a for a in atoms if a[0] == "variant" and "Cert" in str(a[1][0]) or a[0] == "variant"]
-            names = set()
+            names = set(K.CERT_KINDS)
             for a in atoms:
-                if a[0] == "variant":
-                    names = a[1][1] if not names else names & a[1][1]
-            # the innermost restriction: intersection of all variant atoms / a matches!(cert, Cert::Notar) bool
-            ok = names == frozenset(arm) or (arm == {"Notar"} and names and names <= {"Notar", "NotarFallback"} and
-                                             G.has_guard(prog, c.body, c.bb, pred="variant", polarity=True) is not None and
-                                             any(a[0] == "variant" and a[1][1] == frozenset(["Notar"]) for a in atoms))
+                if a[0] == "variant" and a[1][1] <= set(K.CERT_KINDS):
+                    names &= a[1][1]
+            ok = names == arm
             o.check(bool(ok), key + "|arm", "%s only in the Cert::%s arm" % (fshort(fn), "/".join(sorted(arm))), c.span, {"guards": G.atoms_show(atoms)})
     # add_valid_cert callers: validated input or locally created
     for c, key in K.ordinal_keys(prog.callers_of(PI + "::add_valid_cert"), lambda c: "%s|add_valid_cert" % fshort(c.body.defpath)):
